@@ -497,8 +497,9 @@ var listFields = map[string]bool{"Accept": true, "Accept-Charset": true, "Accept
 // DocumentedSame: the two values of the selecting header field are spellings of one value
 // under the normalisation the cache itself lays down for that field (its table of list
 // fields): the same members, whatever their order and the blanks around the commas. Only
-// plain members are judged - no parameters, no weights, no repeated or empty members, no
-// aliases - so that nothing but order and whitespace distinguishes the two spellings.
+// simple members are judged - no weights, no repeated or empty members, no aliases, parameters
+// only when written without blanks - so that nothing but the order of the members and the
+// whitespace around the commas distinguishes the two spellings.
 func DocumentedSame(field string, a, b []string) bool {
 	if SurelySame(a, b) {
 		return true
@@ -511,12 +512,12 @@ func DocumentedSame(field string, a, b []string) bool {
 		seen := map[string]bool{}
 		for _, m := range strings.Split(strings.Join(lines, ","), ",") {
 			m = strings.Trim(m, " \t")
-			if m == "" || seen[m] || strings.HasPrefix(m, "x-") {
-				return nil, false
+			if m == "" || seen[m] || strings.HasPrefix(m, "x-") || strings.Contains(m, ";q=") || strings.Contains(m, ";Q=") || strings.HasSuffix(m, ";") {
+				return nil, false // (parameters are part of a member - byte for byte -, weights are not judged)
 			}
 			for i := 0; i < len(m); i++ {
 				c := m[i]
-				if !(c >= 'a' && c <= 'z' || c >= 'A' && c <= 'Z' || c >= '0' && c <= '9' || c == '-' || c == '/' || c == '*' || c == '+' || c == '.') {
+				if !(c >= 'a' && c <= 'z' || c >= 'A' && c <= 'Z' || c >= '0' && c <= '9' || c == '-' || c == '/' || c == '*' || c == '+' || c == '.' || c == ';' || c == '=') {
 					return nil, false
 				}
 			}
